@@ -192,6 +192,13 @@ EXTRA = [
     [[rm.comp(tag='a', ns='x'), ('>', rm.comp(tag='*', ns='*'))]],
     [[rm.comp(attrs=[('x', 't', '=', 'v', 'i')])]],
     [[rm.comp(pseudos=[('checked',)])], [rm.comp(pseudos=[('root',), ('empty',)])]],
+    # values that begin / end with a quote character or a backslash (the delimiters are removed exactly once)
+    [[rm.comp(attrs=[(None, 't', '=', 'the "best"', None)])]], [[rm.comp(attrs=[(None, 't', '$=', "it's'", None)])]],
+    [[rm.comp(attrs=[(None, 't', '^=', '"', None)])]], [[rm.comp(attrs=[(None, 't', '~=', "''", None)])]],
+    [[rm.comp(attrs=[(None, 't', '*=', 'a\\', None)]), ('>', rm.comp(tag='b'))]],
+    [[rm.comp(pseudos=[('contains', '-soup-contains', ['"x"', "'"])])]],
+    [[rm.comp(pseudos=[('contains', '-soup-contains-own', ['\\', 'q"'])])]],
+    [[rm.comp(pseudos=[('lang', ['en', "e'"])])]],
 ]
 NRAND = 1000 if TIER == 'quick' else 6000
 ASTS = part(EXTRA + selgen.ast_pool(NRAND, SEED + 9, depth=2))
